@@ -324,6 +324,26 @@ def c03(report, env):
     table_obligations(report, 'C03', res)
 
 
+def c01(report, env):
+    # every input string: long runs of one character (what a paste accident or a hostile input looks like), alone and before a literal
+    from pyvc import e2e
+    p = e2e.new_parser()
+    fails, cases = [], 0
+    for ch in ['=', '(', ')', '-', '+', '"', "'", '{', '}', ',', ';', '&', '%', '^', '.', '#', '!', '$', ':', 'A', '1', ' ', '\n', '<', '>', '*', '/', '\\', '_', '?', '@', '\u00e9']:
+        for n in (1100, 6000):
+            for tail in ('', '1', '1+1'):
+                text = ch * n + tail
+                cases += 1
+                try:
+                    r = guarded_parse(p, text, 60)
+                    bad = e2e.well_formed(r)
+                except BaseException as ex:
+                    bad = 'parse raised %s' % type(ex).__name__
+                if bad and len(fails) < 5:
+                    fails.append({'formula': text if len(text) < 60 else '%r * %d + %r' % (ch, n, tail), 'detail': '%r repeated %d times then %r: %s' % (ch, n, tail, bad)})
+    bounded(report, 'C01.long-runs', 'runs of 1100 and 6000 copies of each of 32 characters, alone and before 1 / 1+1: a well-formed record within 60 s', cases, fails, kind='table')
+
+
 def c09(report, env):
     # a custom function receives the evaluated arguments in order whatever their values are - also text that equals a separator
     from pyvc import e2e
@@ -546,7 +566,7 @@ def k15(report, env):
     known_e2e(report, 'C15-proper-dotted-capital-i', once['result'] != twice['result'], 'PROPER(PROPER("a\u0130b"))', 'PROPER is not idempotent: %r then %r' % (once, twice))
 
 
-TABLES = {'C02': [c02], 'C03': [c03], 'C04': [c04, c04_text_leaves], 'C05': [k05], 'C06': [c06], 'C08': [c08], 'C09': [c09, k09], 'C10': [c10], 'C11': [c11, c11_same_object, k11], 'C12': [c12], 'C14': [k14], 'C15': [c15, c15_sweep, c15_case_and_amp, k15], 'C16': [c16, c16_pv], 'C17': [c17, c17_big_and_long], 'C18': [c18, c18_close_numbers], 'C19': [c19], 'C20': [c20]}
+TABLES = {'C01': [c01], 'C02': [c02], 'C03': [c03], 'C04': [c04, c04_text_leaves], 'C05': [k05], 'C06': [c06], 'C08': [c08], 'C09': [c09, k09], 'C10': [c10], 'C11': [c11, c11_same_object, k11], 'C12': [c12], 'C14': [k14], 'C15': [c15, c15_sweep, c15_case_and_amp, k15], 'C16': [c16, c16_pv], 'C17': [c17, c17_big_and_long], 'C18': [c18, c18_close_numbers], 'C19': [c19], 'C20': [c20]}
 
 
 def run(report, env):
